@@ -15,6 +15,8 @@ BASE = 'Spectra::HermEigsBase'
 
 
 def run(ctx):
+    from . import factorization as fz
+    fz.beta_tracks_residual(ctx)
     eigsbase.flag_freshness(ctx, BASE)
     eigsbase.coherent_permutation(ctx, BASE)
     eigsbase.coherent_retrieve(ctx, BASE)
